@@ -105,9 +105,12 @@ void reschedule(int me, bool me_done) {
     r->res.schedule.push_back(nxt);
     r->cur = nxt;
     if (nxt == me) return;
+    // after give_go another thread runs: r->ths may be reallocated (verif_pthread_create) or the Run torn down, so
+    // take our own Th* first
+    Th* mine = me_done ? nullptr : r->ths[me];
     give_go(r->ths[nxt]);
     if (me_done) return;
-    wait_go(r->ths[me]);
+    wait_go(mine);
 }
 
 // does the access change shared state?  (a store/RMW that writes back the value already there does not: a thread
@@ -256,7 +259,7 @@ Result run(const std::vector<std::function<void()>>& bodies, Schedule& sch, size
     return r.res;
 }
 
-namespace { bool g_crash_report = false; }
+namespace { bool g_crash_report = false; bool g_tsc_trap_installed = false; }
 // --- crash reporter: a fault inside a controlled run is an observation; print the schedule that led to it ---------
 namespace {
 void crash_handler(int sig) {
@@ -275,7 +278,9 @@ void report_crashes() {
     g_crash_report = true;
     struct sigaction sa; memset(&sa, 0, sizeof sa);
     sa.sa_handler = crash_handler;
-    sigaction(SIGSEGV, &sa, nullptr); sigaction(SIGBUS, &sa, nullptr); sigaction(SIGABRT, &sa, nullptr); sigaction(SIGFPE, &sa, nullptr);
+    // the RDTSC trap owns SIGSEGV when init_determinism ran (it forwards genuine faults to crash_handler): either call order works
+    if (!g_tsc_trap_installed) sigaction(SIGSEGV, &sa, nullptr);
+    sigaction(SIGBUS, &sa, nullptr); sigaction(SIGABRT, &sa, nullptr); sigaction(SIGFPE, &sa, nullptr);
 }
 
 // --- determinism -----------------------------------------------------------------------------------------
@@ -317,6 +322,7 @@ void init_determinism(int argc, char** argv) {
     struct sigaction sa; memset(&sa, 0, sizeof sa);
     sa.sa_sigaction = tsc_trap; sa.sa_flags = SA_SIGINFO | SA_NODEFER;
     sigaction(SIGSEGV, &sa, nullptr);
+    g_tsc_trap_installed = true;
     prctl(PR_SET_TSC, PR_TSC_SIGSEGV, 0, 0, 0);
 }
 
